@@ -976,12 +976,10 @@ impl<T, S: Status> FusedIterator for Drain<'_, T, S> {}
 
 impl<T, S: Status> Drop for Drain<'_, T, S> {
     fn drop(&mut self) {
-        while self.len != 0 {
-            let next = self.iter.next();
-            debug_assert!(next.is_some());
-            // SAFETY: The remaining part of the slice has at least `self.len`
-            // elements by invariant
-            let slot = unsafe { next.unwrap_unchecked() };
+        // `RawTable::drain()` already accounted all slots as free, so we need
+        // to visit all remaining slots (there may be tombstones after the last
+        // occupied slot).
+        for slot in &mut self.iter {
             let status = slot.status;
             slot.status = S::FREE;
             if status.is_hash() {
@@ -992,6 +990,7 @@ impl<T, S: Status> Drop for Drain<'_, T, S> {
                 unsafe { slot.data.assume_init_drop() };
             }
         }
+        debug_assert_eq!(self.len, 0);
     }
 }
 
